@@ -155,6 +155,101 @@ pub fn run(prop: &str, seed: u64, tier_thorough: bool, trace_path: Option<&str>,
                 json!({"kind": "enc", "api": "lzma", "opt": oname, "n": n, "seed": seed}));
         }
     }
+    // an input of 4 GiB: the index and footer of the .xz container must carry sizes beyond 32 bits (the encoder
+    // measures its own output).  The source produces zeros, the sink counts and keeps the tail; the tail is parsed
+    // as index + footer and compared with what was written.
+    {
+        struct Zeros(u64);
+        impl std::io::Read for Zeros {
+            fn read(&mut self, buf: &mut [u8]) -> std::io::Result<usize> {
+                let n = (buf.len() as u64).min(self.0) as usize;
+                for b in &mut buf[..n] {
+                    *b = 0;
+                }
+                self.0 -= n as u64;
+                Ok(n)
+            }
+        }
+        struct Tail {
+            total: u64,
+            tail: Vec<u8>,
+        }
+        impl std::io::Write for Tail {
+            fn write(&mut self, buf: &[u8]) -> std::io::Result<usize> {
+                self.total += buf.len() as u64;
+                if buf.len() >= 64 {
+                    self.tail.clear();
+                    self.tail.extend_from_slice(&buf[buf.len() - 64..]);
+                } else {
+                    self.tail.extend_from_slice(buf);
+                    let l = self.tail.len();
+                    if l > 64 {
+                        self.tail.drain(..l - 64);
+                    }
+                }
+                Ok(buf.len())
+            }
+            fn flush(&mut self) -> std::io::Result<()> {
+                Ok(())
+            }
+        }
+        let n: u64 = (1u64 << 32) + 12345;
+        let mut src = std::io::BufReader::with_capacity(1 << 16, Zeros(n));
+        let mut sink = Tail { total: 0, tail: vec![] };
+        let r = catch(|| lzma_rs::xz_compress(&mut src, &mut sink));
+        rep.eval(hash_of(&(n, "xz-4GiB")), true);
+        let mut vs: Vec<String> = vec![];
+        if !matches!(r, Caught::Done(Ok(()))) {
+            vs.push("xz_compress failed or panicked on a 4 GiB input".into());
+        } else {
+            // footer: crc32(4) backward(4) flags(2) "YZ"; index = backward*4+4 bytes before it
+            let t = &sink.tail;
+            let f = &t[t.len() - 12..];
+            let backward = u32::from_le_bytes([f[4], f[5], f[6], f[7]]) as usize;
+            let isz = (backward + 1) * 4;
+            if f[10] != b'Y' || f[11] != b'Z' {
+                vs.push("the emitted file does not end with a stream footer".into());
+            } else if isz + 12 > t.len() {
+                // an index longer than the tail we kept (several blocks): not examined
+                rep.count("xz_4gib_index_not_examined");
+            } else {
+                let idx = &t[t.len() - 12 - isz..t.len() - 12];
+                let mut pos = 1usize;
+                let mut rd = |pos: &mut usize| -> u64 {
+                    let mut v = 0u64;
+                    let mut sh = 0;
+                    loop {
+                        let b = idx[*pos];
+                        *pos += 1;
+                        v |= ((b & 0x7F) as u64) << sh;
+                        sh += 7;
+                        if b & 0x80 == 0 || sh > 63 {
+                            return v;
+                        }
+                    }
+                };
+                let count = rd(&mut pos);
+                let unpadded = rd(&mut pos);
+                let unpacked = rd(&mut pos);
+                // stream = 12 (header) + block (unpadded + padding to 4) + index + 12 (footer)
+                let expect_unpadded_padded = sink.total - 12 - isz as u64 - 12;
+                if idx[0] != 0 {
+                    vs.push(format!("the index indicator is {}", idx[0]));
+                } else if count != 1 {
+                    // several blocks: the single-record arithmetic below does not apply
+                    rep.count("xz_4gib_index_not_examined");
+                } else if unpacked != n {
+                    vs.push(format!("the index records an uncompressed size of {} for an input of {} bytes", unpacked, n));
+                } else if (unpadded + 3) / 4 * 4 != expect_unpadded_padded {
+                    vs.push(format!("the index records an unpadded block size of {}, the block written occupies {} bytes with padding", unpadded, expect_unpadded_padded));
+                }
+            }
+        }
+        if !vs.is_empty() {
+            rep.violation(prop, format!("xz_compress n={} (beyond 4 GiB): {}", n, vs.join("; ")), json!({"kind": "enc", "api": "xz", "n": n, "seed": seed}));
+        }
+        rep.count("xz_4gib_input");
+    }
     for (li, &n) in lens.iter().enumerate() {
         let kinds: Vec<usize> = if n <= 1000 { (0..7).collect() } else if tier_thorough { vec![0, 1, 2, 3, 5, 6] } else { vec![(li + seed as usize) % 7, 2] };
         for kind in kinds {
@@ -213,7 +308,9 @@ pub fn run(prop: &str, seed: u64, tier_thorough: bool, trace_path: Option<&str>,
                                 let rr = refdec::decode(&out[hl..], p, dict, size, None).unwrap();
                                 let clean_end = match rr.end {
                                     End::Eos { clean } => clean && size.is_none(),
-                                    End::SizeReached => size == Some(n as u64) && rr.consumed == out.len() - hl && rr.final_clean,
+                                    // with a size in effect a conforming decoder stops there: whether the encoder also
+                                    // wrote an end marker or flush bytes after it is its own business
+                                    End::SizeReached => size == Some(n as u64),
                                     _ => false,
                                 };
                                 if rr.out != input || !clean_end {
@@ -314,6 +411,12 @@ pub fn run(prop: &str, seed: u64, tier_thorough: bool, trace_path: Option<&str>,
                             if d1.verdict != Verdict::Ok || d1.out != input {
                                 vs.push(format!("xz_decompress does not return the input: {:?} {}", d1.verdict, d1.msg));
                             }
+                            // independent conforming decoder (whatever structure the encoder chose)
+                            match crate::refxz::decode(&out) {
+                                Ok(o) if o == input => {}
+                                Ok(o) => vs.push(format!("an independent .xz decoder recovers {} bytes that are not the input ({} bytes)", o.len(), n)),
+                                Err(e) => vs.push(format!("an independent .xz decoder rejects the emitted file: {}", e)),
+                            }
                             // field parse
                             let parsed = (|| -> Option<Value> {
                                 if out.len() < 24 || &out[0..6] != [0xFD, 0x37, 0x7A, 0x58, 0x5A, 0x00] {
@@ -360,7 +463,8 @@ pub fn run(prop: &str, seed: u64, tier_thorough: bool, trace_path: Option<&str>,
                                         trace.push(ev.to_string());
                                     }
                                 }
-                                None => vs.push("the emitted .xz file does not have the field layout of a single-block stream".into()),
+                                // which block structure, chunk layout and check type the encoder uses is not C04's business
+                                None => rep.drift("xz_compress emitted something other than one block of uncompressed chunks without a check".into(), json!({"n": n})),
                             }
                             // a sink that accepts only part of each write must receive the same file (the encoder
                             // measures its own output for the index and footer)
